@@ -161,6 +161,27 @@ func (c *Client) VerifSignals() (online, offline, known bool) {
 		fatal("%v", err)
 	}
 	replace[selPath] = dst
+	// runtime: no time-slice preemption by sysmon while simulating. A
+	// preempted goroutine goes to the global run queue, which reorders
+	// the goroutines that are runnable within one scheduler step by
+	// wall-clock time.
+	procPath := filepath.Join(*goroot, "src", "runtime", "proc.go")
+	proc, err := os.ReadFile(procPath)
+	if err != nil {
+		fatal("%v", err)
+	}
+	const stockRetake = "} else if pd.schedwhen+forcePreemptNS <= now {\n\t\t\tpreemptone(pp)"
+	if bytes.Count(proc, []byte(stockRetake)) != 1 {
+		fatal("runtime/proc.go: retake preemption not found exactly once; toolchain changed")
+	}
+	proc = bytes.Replace(proc, []byte(stockRetake),
+		[]byte("} else if pd.schedwhen+forcePreemptNS <= now {\n\t\t\tif verifsimSelectMode == 0 {\n\t\t\t\tpreemptone(pp)\n\t\t\t}"), 1)
+	dst = filepath.Join(*out, "virt", "runtime_proc.go")
+	if err := os.WriteFile(dst, proc, 0o644); err != nil {
+		fatal("%v", err)
+	}
+	replace[procPath] = dst
+
 	b, err := os.ReadFile(filepath.Join(*verif, "overlay", "runtime", "zz_verifsim.go"))
 	if err != nil {
 		fatal("%v", err)
